@@ -129,7 +129,12 @@ pub fn decode_build_case(t: &mut Tape, x: &mut Tape, max_n: usize, cap: Option<u
     // that functions declare more than 8 accesses (mixed reads and writes)
     let many = t.chance(1, 8);
     let n_types = if many {
-        9 + t.below((N_TYPES_MAX - 8) as usize) as u8
+        // 9..=24 types usually, sometimes the whole universe (more than 64 types)
+        if t.chance(1, 4) {
+            65 + t.below((N_TYPES_MAX - 64) as usize) as u8
+        } else {
+            9 + t.below(16) as u8
+        }
     } else {
         1 + t.below(N_TYPES as usize) as u8
     };
@@ -208,10 +213,40 @@ pub fn decode_build_case(t: &mut Tape, x: &mut Tape, max_n: usize, cap: Option<u
             }
         }
     }
-    let mut spec = GraphSpec { fns, edges };
+    // batch calls after the single ones: existing pairs, new forward pairs and
+    // cycle-closing (reversed) pairs at any position of the batch
+    let mut batches: Vec<(Vec<(usize, usize)>, Kind)> = vec![];
+    if n >= 2 && t.chance(1, 5) {
+        for _ in 0..1 + t.below(2) {
+            let len = t.below(4);
+            let mut pairs = vec![];
+            for _ in 0..len {
+                let c = t.below(4);
+                let pair = if c == 0 && !edges.is_empty() {
+                    let e = edges[t.below(edges.len())];
+                    (e.0, e.1)
+                } else if c == 1 && !edges.is_empty() {
+                    let e = edges[t.below(edges.len())];
+                    (e.1, e.0)
+                } else {
+                    let a = t.below(n);
+                    let b = t.below(n);
+                    if c == 2 && a != b {
+                        if pos[a] < pos[b] { (a, b) } else { (b, a) }
+                    } else {
+                        (a, b)
+                    }
+                };
+                pairs.push(pair);
+            }
+            let k = if t.chance(1, 2) { Kind::Contains } else { Kind::Logic };
+            batches.push((pairs, k));
+        }
+    }
+    let mut spec = GraphSpec { fns, edges, batches };
     if let Some(cap) = cap {
         loop {
-            let ue = user_edges(n, &spec.edges).edges;
+            let ue = user_edges(n, &spec.flat_calls()).edges;
             if root_path_count(n, &ue) <= cap {
                 break;
             }
@@ -293,6 +328,8 @@ pub struct Built {
     pub g: FnGraph<TestFn>,
     pub ids_ok: bool,
     pub accepted: Vec<bool>,
+    /// Per batch call: accepted as a whole?
+    pub batch_ok: Vec<bool>,
     pub rank_visits: u64,
     pub access_calls: u64,
 }
@@ -323,6 +360,7 @@ pub fn build_recorded(spec: &GraphSpec) -> Result<Built, String> {
             };
             accepted.push(r.is_ok());
         }
+        let batch_ok = crate::model::apply_batches(&mut b, &ids, &spec.batches);
         fn_graph::verif_hooks::rank_calc_visits_reset();
         access_calls_reset();
         let g = b.build();
@@ -331,6 +369,7 @@ pub fn build_recorded(spec: &GraphSpec) -> Result<Built, String> {
             g,
             ids_ok,
             accepted,
+            batch_ok,
             rank_visits,
             access_calls: access_calls(),
         }
@@ -356,7 +395,7 @@ pub struct BuildFacts {
 impl BuildFacts {
     pub fn new(spec: &GraphSpec, g: &FnGraph<TestFn>) -> Self {
         let n = spec.n();
-        let user = user_edges(n, &spec.edges).edges;
+        let user = user_edges(n, &spec.flat_calls()).edges;
         let built = built_edges(g);
         let mut user_reach = BitMat::from_edges(n, user.iter().map(|e| (e.0, e.1)));
         user_reach.close();
@@ -415,6 +454,29 @@ pub fn check_c11(spec: &GraphSpec, b: &Built, f: &BuildFacts) -> Vec<Violation> 
             "acceptance-differs-from-model",
             format!("accepted {:?} model {:?}", b.accepted, model.accepted),
         ));
+    }
+    {
+        // batch calls: accepted as a whole iff no pair is rejected
+        let mut calls = spec.edges.clone();
+        let mut exp = vec![];
+        for (pairs, k) in &spec.batches {
+            let mut ok = true;
+            for &(a, c) in pairs.iter().take(3) {
+                calls.push((a, c, *k));
+                if !*user_edges(n, &calls).accepted.last().unwrap() {
+                    ok = false;
+                    break;
+                }
+            }
+            exp.push(ok);
+        }
+        if exp != b.batch_ok {
+            out.push(v(
+                "C11",
+                "batch-acceptance-differs-from-model",
+                format!("batch calls accepted {:?}, model {:?}", b.batch_ok, exp),
+            ));
+        }
     }
     // one edge per ordered pair
     for (i, e) in f.built.iter().enumerate() {
@@ -561,8 +623,8 @@ pub fn check_c12_equality(case: &BuildCase, b: &Built) -> (Vec<Violation>, u64) 
     if let Some(m) = &case.mutation {
         let s2 = apply_mutation(spec, m);
         let n = spec.n();
-        let e1 = user_edges(n, &spec.edges).edges;
-        let e2 = user_edges(n, &s2.edges).edges;
+        let e1 = user_edges(n, &spec.flat_calls()).edges;
+        let e2 = user_edges(n, &s2.flat_calls()).edges;
         let expect_equal = spec.fns == s2.fns && e1 == e2;
         match build_recorded(&s2) {
             Err(msg) => out.push(v("C12", "mutated-build-panicked", msg)),
@@ -1228,7 +1290,7 @@ pub fn exhaustive(prop: &str, max_n: usize, with_access: bool, workers: usize) -
                             })
                             .collect();
                         let case = BuildCase {
-                            spec: GraphSpec { fns, edges: es },
+                            spec: GraphSpec { fns, edges: es, batches: vec![] },
                             fail_pos: if n == 0 { 0 } else { a % n },
                             mutation: None,
                             labels: (0..n).map(|i| format!("f{i}")).collect(),
